@@ -101,6 +101,16 @@ CASES = [
     ("updrecv", "fn f(e: Eng, x: &[u8]) -> Eng { let mut h = e; h.input(x); h.input(b\"s\"); h }",
      ("expect", ["(ext_Eng_input : Eng → (List Nat) → Eng)", "let h := (ext_Eng_input h x)", "let h := (ext_Eng_input h [115])"]), (None, "f"),
      {"Eng.input": {"params": ["Eng", "&[u8]"], "ret": "Eng", "updates_receiver": True}}),
+    ("fieldname", "pub struct P { pub id: Option<u32>, pub id0: u32 }\nimpl P { fn id(&self) -> u32 { self.id.unwrap_or(self.id0) } }",
+     ("expect", ["def P.id_fn (self : P) : Nat", "self.id.getD self.id0"]), ("P", "id")),
+    ("updrecv-mutparam", "fn f<W: Write>(w: &mut W, x: u16) -> Result<(), Error> { w.write_all(&x.to_be_bytes())?; Ok(()) }",
+     ("expect", ["(ext_W_write_all : W → (List Nat) → (Rs.M W))", "let t_1 ← ext_W_write_all w (Rs.toBeBytes 2 x)", "let w := t_1", "pure w"]), (None, "f"),
+     {"W.write_all": {"params": ["W", "&[u8]"], "ret": "Result<W, Error>", "monadic": True, "updates_receiver": True}}),
+    ("updrecv-value", "fn f<R: Read>(r: &mut R) -> Result<u32, Error> { let a = r.read_u16_be()?; let b = r.read_u16_be()?; Ok(a as u32 + b as u32) }",
+     ("expect", ["let t_1 ← ext_R_read_u16_be r", "let (rcv_2, val_3) := t_1", "let r := rcv_2", "(r, "]), (None, "f"),
+     {"R.read_u16_be": {"params": ["R"], "ret": "Result<(R, u16), Error>", "monadic": True, "updates_receiver": True}}),
+    ("r-mutparam-opaque", "fn f<W: Write>(w: &mut W, x: u16) -> Result<(), Error> { w.write_all(&x.to_be_bytes())?; Ok(()) }",
+     ("refuse", "opaque")),
     ("r-updrecv-undeclared", "fn f(e: Eng, x: &[u8]) -> Eng { let mut h = e; h.input(x); h }", ("refuse", "input")),
     ("entry2", "pub struct H { pub p: K2, pub v: u64 }\nfn f(hs: &[H]) -> BTreeMap<K2, u64> { let mut m = BTreeMap::new(); for h in hs { m.entry(h.p).and_modify(|e| *e += h.v).or_insert(h.v); } m }",
      ("expect", ["match (Rs.omapGet m h.p) with", "| some e =>", "Rs.uadd Rs.U64_MAX e h.v", "Rs.omapInsert m h.p e", "Rs.omapInsert m h.p h.v"])),
@@ -114,6 +124,14 @@ CASES = [
      ("expect", ["def G.f (self : G) (x : Nat) : Rs.M G", "{ self with log := (some (x_", "pure self"]), ("G", "f")),
     ("lock3", "pub struct G { pub log: Mutex<Option<Vec<u32>>> }\nimpl G { fn g(&self) -> Option<Vec<u32>> { let mut o = self.log.lock().unwrap(); o.take() } }",
      ("expect", ["G × (Option (List Nat))", "{ self with log := none }"]), ("G", "g")),
+    # (b1315, round 9) `let x = &mut self.f;` is a write-through alias (it used to be a copy whose writes were lost)
+    ("mutalias", "pub struct D { pub n: u32, pub v: Vec<u32> }\npub struct P { pub d: D, pub k: bool }\nimpl P { fn f(&mut self, x: u32) { let st = &mut self.d; st.n = x; st.v.push(x); } }",
+     ("expect", ["{ self with d := { self.d with n := x } }", "self.d.v ++ [x]", "self"]), ("P", "f")),
+    # (b1315, round 9) a write through an alias declared inside a branch is carried out of the branch
+    ("aliasjoin", "pub struct P { pub o: Option<Vec<u32>>, pub n: u32 }\nimpl P { fn f(&mut self, x: u32) { if self.o.is_some() { let v = self.o.as_mut().unwrap(); v.push(x); } self.n += 1; } }",
+     ("expect", ["let self ← do", "{ self with o := (some"]), ("P", "f")),
+    ("r-mutalias-index", "pub struct P { pub v: Vec<u32> }\nimpl P { fn f(&mut self) { let e = &mut self.v[0]; *e = 1; } }",
+     ("refuse", "not a field path"), ("P", "f")),
     ("vecunder", "fn f(v: &[u32]) -> usize { let w: Vec<_> = v.iter().map(|x| *x).collect(); w.len() }", ("expect", ["w.length"])),
     # (round 9) `&mut` parameter of an opaque type + declared state-updating externals (`"updates": true`)
     ("updext", "fn f(t: &mut Tx, x: u32) -> Result<u32, ()> { let n = t.add(x)?; if n > 3 { t.seal(); } Ok(n) }",
@@ -146,6 +164,10 @@ CASES = [
                  "Rs.fail \"Status::invalid_argument\"",
                  "ext_Node_with_channel self.node self.id (H.f__with_channel_1 ext_Channel_validate ext_Channel_revoke ext_Channel_activate n)"]),
      ("H", "f"), WC_EXT),
+    ("mutexnew", "pub struct G { pub st: Mutex<S>, pub n: u64 }\nimpl G { fn new(s: S, n: u64) -> Self { Self { st: Mutex::new(s), n } } }",
+     ("expect", ["{ st := s, n := n }"]), ("G", "new")),
+    ("letlit-logonly", "pub struct P { pub a: u64, pub b: u32 }\nfn f(x: u64, y: u16) -> bool { let p = P { a: x + 1, b: y as u32 }; warn!(\"p {:?}\", p); true }",
+     ("expect", ["Rs.uadd Rs.U64_MAX x 1", "pure true"])),
     ("boxnew", "pub struct R { pub a: u64 }\nfn f(x: u64) -> Result<Box<R>, ()> { Ok(Box::new(R { a: x })) }", ("expect", ["pure { a := x }"])),
     ("letany", "fn f(o: Option<Sk>) -> Option<Ds> { let r = o.map(|s| Ds(s[..].try_into().unwrap())); r }",
      ("expect", ["(ext_let_r : (Option Sk) → (Option Ds))", "let r := (ext_let_r o)"]), (None, "f"),
@@ -165,6 +187,7 @@ CASES = [
      ("refuse", "order the model does not know")),
     ("r-guard-write", "pub struct G { pub st: Mutex<S> }\nimpl G { fn get(&self) -> MutexGuard<'_, S> { self.st.lock().expect(\"l\") }\n fn f(&self) { let mut s = self.get(); s.a = 1; } }",
      ("refuse", "write through the MutexGuard"), ("G", "f")),
+    ("r-value-assign", "fn f(v: &mut Vec<u32>, c: bool) -> Option<u32> { let r = if c { v.push(1); None } else { Some(2) }; r }", ("refuse", "used as a value")),
     ("r-loop", "fn f() -> u32 { let mut i = 0u32; loop { i += 1; if i > 3 { break; } } i }", ("refuse", "`loop`")),
     ("r-while", "fn f(mut n: u32) -> u32 { while n > 1 { n = n / 2; } n }", ("refuse", "counted form")),
     ("r-while-bound", "fn f(v: &mut Vec<u32>) { let mut i = 0usize; while i < v.len() { v.push(1); i += 1; } }", ("refuse", "counted form")),
@@ -179,7 +202,11 @@ CASES = [
     ("r-opaque-collect", "fn f(m: &BTreeMap<K, u32>) -> Vec<u32> { m.values().copied().collect() }", ("refuse", "order-sensitive")),
     ("r-float", "fn f() -> u32 { let x = 1.5; 1 }", ("refuse", "float")),
     ("r-unknown-call", "fn f(a: u32) -> u32 { other(a) }", ("refuse", "unknown function")),
-    ("r-result-value", "fn g() -> Result<u32, ()> { Ok(1) }\nfn f() -> u32 { let r = g(); 1 }", ("refuse", "Result-valued call")),
+    # (b0507, round 9) a Result-valued call bound to a variable is captured (`Rs.capture`: Err as a value, panics propagate);
+    # the variable answers is_ok / is_err and can be re-raised by `Err(r.unwrap_err())`; anything else on it is refused
+    ("r-result-value", "fn g() -> Result<u32, ()> { Ok(1) }\nfn f() -> u32 { let r = g(); r.unwrap_or(3) }", ("refuse", "captured Result")),
+    ("capture", "fn g(a: u32) -> Result<u32, ()> { if a > 1 { return Err(()); } Ok(a) }\nfn f(a: u32) -> Result<u32, ()> { let r = g(a); let s = if r.is_ok() { 1 } else { let q = g(0); if q.is_ok() { 2 } else { return Err(r.unwrap_err()); } }; Ok(s) }",
+     ("expect", ["Rs.capture (g a)", "Rs.capture (g 0)", "Rs.unwrapErr r", "| Except.ok _ => true"])),
     ("r-letelse-fall", "fn f(o: Option<u32>) -> u32 { let Some(x) = o else { let y = 1u32; }; x }", ("refuse", "does not diverge")),
     ("r-break-value", "fn f() -> u32 { let x = loop { break 1; }; x }", ("refuse", "break with a value")),
     ("r-untyped", "fn f() -> bool { let x = 1; true }", ("refuse", "without a type")),
